@@ -140,8 +140,18 @@ def invariant_episode(mon, pid, cls, inv, kind, rng, max_ops=25, per_op=None):
     """
     hostile = kind != "steered"
     avoid = steer_tags(pid) if kind == "steered" else frozenset()
-    gen = ops.GENS[cls](rng, hostile=hostile, avoid=avoid)
-    gen.nan_ok = pid == "C01" and hostile
+    nkind = None
+    if pid == "C01" and kind != "start" and rng.random() < 0.1:
+        # tuple node labels (grid coordinates): only through the single-edge API - the bulk formats are documented
+        # as ambiguous for iterable labels
+        nkind = "tuple"
+        avoid = frozenset(avoid | {"fmt1", "fmt2", "fmt3", "fmt4", "fmt5"})
+        mon.note("episodes:tuple-node-labels")
+    gen = ops.GENS[cls](rng, hostile=hostile, avoid=avoid, nkind=nkind)
+    # NaN labels and pickle round trips exclude each other: unpickling gives every table its own NaN object, and NaN
+    # is only equal to itself by identity - that is NaN's semantics, not the library's
+    gen.nan_ok = pid == "C01" and hostile and rng.random() < 0.5
+    roundtrips = not gen.nan_ok
     hist = []
     if kind == "start":
         how, net = start_state(rng, cls, gen)
@@ -157,6 +167,15 @@ def invariant_episode(mon, pid, cls, inv, kind, rng, max_ops=25, per_op=None):
         net = ops.new_net(cls)
     n_ops = rng.randint(1, max_ops)
     for step in range(n_ops):
+        if roundtrips and rng.random() < 0.04 and not inv(net):
+            # the history continues on a pickled / deep-copied / copied network (a constructible start state like any other)
+            import copy as _copy
+            import pickle as _pickle
+
+            how = rng.choice(("pickle", "deepcopy", "copy"))
+            net = _pickle.loads(_pickle.dumps(net)) if how == "pickle" else (_copy.deepcopy(net) if how == "deepcopy" else net.copy())
+            hist.append(f"<net = {how}(net)>")
+            mon.note(f"history-continues-on:{how}")
         op = gen.gen(net)
         hist.append(repr(op))
         pre = snap.snap(net) if per_op else None
